@@ -48,6 +48,9 @@ def projection_queries():
             out.append((f"Select(ds, lambda e: First(Select(e.jets, lambda j: "
                         f"{lit.format(a='j.pt', b='j.eta', k='k')}))[{sel}])", exp))
         if kind == "d":
+            out.append((f"Select(ds, lambda e: {L}.get('zz', 0))", False))
+            out.append((f"Select(Select(ds, lambda e: Select(e.jets, lambda j: {lit.format(a='j.pt', b='j.eta', k='k')})), "
+                        f"lambda t: Select(t, lambda r: r.get('zz', 0)))", False))
             for attr in ("a", "b", "zz", "keys"):
                 out.append((f"Select(ds, lambda e: {L}.{attr})", False))
                 out.append((f"Select(Select(ds, lambda e: {L}), lambda t: t.{attr})", False))
@@ -106,6 +109,18 @@ def check_one(t, src, idx_err_expected, budget=5):
                     f"result is not a valid AST ({type(ex).__name__}: {str(ex)[:80]})", src, None,
                     _safe_dump(r), replay)
         return
+    # an attribute that is not a key of the dictionary literal it is taken from stays an
+    # attribute access (seed C18_f: it was turned into {...}['name'], another expression)
+    for name in ("zz", "keys", "get"):
+        if any(isinstance(x, ast.Attribute) and x.attr == name for x in ast.walk(q)):
+            t.contract("absent attribute of a dictionary literal: sub-expression left intact")
+            if not any(isinstance(x, ast.Attribute) and x.attr == name for x in ast.walk(r)) or \
+                    any(isinstance(x, ast.Subscript) and isinstance(x.slice, ast.Constant)
+                        and x.slice.value == name for x in ast.walk(r)):
+                t.violation("simplify_chained_calls.visit:absent key/attribute left intact",
+                            f"the attribute .{name} (not a key of the literal) was rewritten", src,
+                            None, text, replay)
+                return
     # the induction hypothesis of the deductive proof (spec qs, executed natively): a query of
     # query shape stays of query shape — a run-time cross-check of the proof's model and of the
     # parts the proof only assumes (visit_Lambda / generic_visit / make_args_unique)
